@@ -7,6 +7,38 @@ import expect
 import dboracles
 
 
+def crafted_inferred_chain(rng):
+    """A selection whose relations come only through an expand lexicon, over ILIs the selection lacks: traversals pass
+    through inferred placeholder synsets for more than one hop.  Unselected lexicons hold what a traversal that forgot its
+    Wordnet would pick up: fr:1 has another relation from the middle ILI, esx:1 (an extension of the selection that is not
+    selected) has a synset for the far ILI."""
+    def lex(lid, lang, synsets, ext=None):
+        lx = {'id': lid, 'label': lid, 'language': lang, 'email': 'e', 'license': 'l', 'version': '1', 'meta': None,
+              'entries': [], 'synsets': synsets}
+        if ext:
+            lx['extends'] = ext
+        return lx
+
+    def ss(sid, ili, rels=()):
+        d = {'id': sid, 'ili': ili, 'partOfSpeech': 'n', 'meta': None}
+        if rels:
+            d['relations'] = [{'target': t, 'relType': ty, 'meta': None} for ty, t in rels]
+        return d
+    n = rng.choice([3, 4])
+    en = [ss('en-%d' % k, 'i8%d' % k, [('hypernym', 'en-%d' % (k + 1))] if k < n else []) for k in range(1, n + 1)]
+    es = [ss('es-1', 'i81'), ss('es-0', '')]
+    fr = [ss('fr-2', 'i82', [('hypernym', 'fr-9'), ('similar', 'fr-9')]), ss('fr-9', 'i89')]
+    esx = [ss('esx-3', 'i83', []), {'id': 'es-0', 'external': True,
+                                     'relations': [{'target': 'esx-3', 'relType': 'similar', 'meta': None}]}]
+    res = [('en:1', {'lmf_version': '1.3', 'lexicons': [lex('en', 'en', en)]}),
+           ('es:1', {'lmf_version': '1.3', 'lexicons': [lex('es', 'es', es)]}),
+           ('fr:1', {'lmf_version': '1.3', 'lexicons': [lex('fr', 'fr', fr)]}),
+           ('esx:1', {'lmf_version': '1.1', 'lexicons': [lex('esx', 'es', esx, {'id': 'es', 'version': '1'})]})]
+    cfgs = [{'lexicon': 'es:1', 'expand': 'en:1'}, {'lexicon': 'es:1', 'expand': 'en:1 fr:1'}, {'lexicon': 'es:1 esx:1', 'expand': 'en:1'},
+            {'lexicon': 'es:1', 'expand': ''}, {'lexicon': 'es:1', 'expand': '*'}, {}]
+    return res, cfgs
+
+
 def run_family(rep, tier, pid, seed_mul, oracles, n_quick, n_thorough, tweak=None, corr_cap=(40, 600)):
     rng = random.Random(common.seed() * 7919 + seed_mul)
     n = n_quick if tier == 'quick' else n_thorough
